@@ -81,7 +81,7 @@ func c14Check(c c14Case) *Violation {
 		got := env.withStdin(s.Sin).withStale(s.Old).withInPlace(s.inPlace()).withPiped(s.Pipe).run(expandArgs(s.Args), pool[s.In], s.Out, s.Ext)
 		hist := []string{}
 		for _, p := range c.Steps[:i+1] {
-			hist = append(hist, fmt.Sprintf("[gts %q < %s out=%v%s alt=%v stdin=%s]", p.Args, p.In, p.Out, p.Ext, p.Alt, []string{"pipe", "file", "file-at-offset"}[mod(p.Sin, 3)]))
+			hist = append(hist, fmt.Sprintf("[gts %q < %s out=%v%s alt=%v stdin=%s]", p.Args, p.In, p.Out, p.Ext, p.Alt, []string{"pipe", "file", "file-at-offset", "terminal+path"}[mod(p.Sin, 4)]))
 		}
 		if s.Out && s.Old && want.Exit == 0 && !s.inPlace() {
 			// what the file held before is no part of the output of a run that succeeds
@@ -157,7 +157,7 @@ func c14Classify(c c14Case) (bool, []string) {
 			labels = append(labels, "secondary-through-pipe")
 		}
 		if s.Sin > 0 {
-			labels = append(labels, "stdin:"+[]string{"pipe", "file", "file-at-offset"}[mod(s.Sin, 3)])
+			labels = append(labels, "stdin:"+[]string{"pipe", "file", "file-at-offset", "terminal+path"}[mod(s.Sin, 4)])
 		}
 		if s.In == "bad" || s.In == "garbage" || s.In == "empty" || s.In == "bigbad" {
 			labels = append(labels, "invalid-input")
@@ -251,7 +251,7 @@ func c14Gen(t *rapid.T) c14Case {
 		v := vars[rapid.IntRange(0, len(vars)-1).Draw(t, "variant")]
 		st := c14Step{Args: append([]string{cmd}, v...), In: in, Out: rapid.IntRange(0, 3).Draw(t, "out") == 0}
 		st.Alt = rapid.IntRange(0, 3).Draw(t, "alt") == 0
-		st.Sin = rapid.SampledFrom([]int{0, 0, 0, 1, 2}).Draw(t, "sin")
+		st.Sin = rapid.SampledFrom([]int{0, 0, 0, 1, 2, 3}).Draw(t, "sin")
 		st.Inp = rapid.IntRange(0, 2).Draw(t, "inp") == 0
 		st.Pipe = rapid.IntRange(0, 3).Draw(t, "pipe") == 0
 		if st.Out {
@@ -322,6 +322,9 @@ func TestC14(t *testing.T) {
 				{Steps: []c14Step{sinp("small"), sinp("two"), sa("two", false), sinp("two")}},
 				{Steps: []c14Step{spipe("small", false), spipe("small", true), spipe("small", false), sa("small", false)}},
 				{Steps: []c14Step{sa("two", false), ssin("two", 2), ssin("big", 2), sa("big", false)}},
+				// standard input is a terminal and the input a file named as the last argument (the interactive use)
+				{Steps: []c14Step{ssin("small", 3), sa("small", false), ssin("small", 3), ssin("two", 3)}},
+				{Steps: []c14Step{sa("two", false), ssin("two", 3), ssin("bad", 3), ssin("bad", 3)}},
 			} {
 				if !e.try(c) {
 					return
